@@ -175,9 +175,24 @@ def run_compile(case, root: Path, compiler=None):
             c = comp.compile(text, (root / f) if f else None, skip_indentation=skip)
             return result_ok(c, root)
         elif op == 'compile_file':
-            before = None
-            c = comp.compile_file(root / case['file'])
-            return result_ok(c, root)
+            # how the caller spells the entry path: absolute and normalised (default), relative to the working directory,
+            # or through a folder and back out of it (`proj/zz_dir/../main.txt`)
+            p = root / case['file']
+            sp = case.get('entry')
+            cwd = os.getcwd()
+            try:
+                if sp == 'relative':
+                    os.chdir(root); p = Path(case['file'])
+                elif sp == 'relative-leaf':      # the working directory is the entry file's own folder
+                    os.chdir((root / case['file']).parent); p = Path(Path(case['file']).name)
+                elif sp == 'dotdot':
+                    parts = Path(case['file']).parts
+                    (root.joinpath(*parts[:-1]) / 'zz_dir').mkdir(parents=True, exist_ok=True)
+                    p = root.joinpath(*parts[:-1]) / 'zz_dir' / '..' / parts[-1]
+                c = comp.compile_file(p)
+                return result_ok(c, root)
+            finally:
+                os.chdir(cwd)
         raise ValueError('bad op ' + op)
     except d.CompilationError as e:
         return result_err(e, root)
